@@ -741,6 +741,9 @@ pub fn odd_key_items() -> Vec<OddKeys> {
 pub struct ManyPaths {
     pub n: u32,
     pub list: bool,
+    /// reach the files through one glob (a directory walk over all of them) instead of one argument per file
+    #[serde(default)]
+    pub glob: bool,
 }
 
 pub fn check_many_paths(c: &ManyPaths, probe: &Probe) -> Verdict {
@@ -753,7 +756,11 @@ pub fn check_many_paths(c: &ManyPaths, probe: &Probe) -> Verdict {
         names.push(name);
     }
     let mut args: Vec<&str> = if c.list { vec!["list"] } else { vec![] };
-    args.extend(names.iter().map(String::as_str));
+    if c.glob {
+        args.push("src/**/*.py");
+    } else {
+        args.extend(names.iter().map(String::as_str));
+    }
     let mut r = BwRun::scan(&args);
     r.timeout_s = Some(30);
     probe.child();
@@ -763,7 +770,7 @@ pub fn check_many_paths(c: &ManyPaths, probe: &Probe) -> Verdict {
     if o.timed_out {
         let again = sb.bw(&r);
         if again.timed_out {
-            return Verdict::Fail(format!("C04 [many path arguments]: {} files passed as {} arguments: no result within 30 s (twice)", c.n, c.n));
+            return Verdict::Fail(format!("C04 [many paths]: {} files {}: no result within 30 s (twice)", c.n, if c.glob { "reached through one glob".to_string() } else { format!("passed as {} arguments", c.n) }));
         }
         return Verdict::Unspecified("one slow run that did not reproduce (inconclusive)");
     }
@@ -780,7 +787,7 @@ pub fn check_many_paths(c: &ManyPaths, probe: &Probe) -> Verdict {
 pub fn run(run: &mut Run) {
     run.sentinel("K6", "raw", check_raw);
     run.enumerate("raw", Vec::<RawInput>::new(), None, check_raw);
-    run.rule = "four enumerated and four random parts. many-paths: 3 000 tiny files each passed as its own path argument (an unquoted shell glob), validate and list, 30 s limit for a sub-second job. odd-numbers: every pair (and a sample of triples) of 18 unusual numerals (nan, inf, exponents, signs, -0, overflow, underscores, hex, Arabic-Indic digit, 2^53+1, blank) as the keys of a numeric keep-sorted block, with and without a pattern: any verdict, but no panic. line-edits: a block of 1..4 short lines over 21 characters (ASCII and multi-byte characters in groups sharing their UTF-8 lead bytes) changed by 1..4 character substitutions / insertions / deletions, in two thirds of the cases together with 1..2 such edits of the start-tag line (so that changed ranges begin or end anywhere around the tag), real `git diff -U0..3` piped to `blockwatch` and `blockwatch list` (non-trivial = the first differing character of a changed line is multi-byte on both sides). deep: 16 repetitive shapes (nested parentheses / brackets / braces / elements, block-quote prefixes, comment openers, comment lines, nested <block> tags, member and operator chains, quotes, nested lists, backticks, unfinished tags) repeated 300 and 1 000 (thorough 3 000) times under every suffix, and expression nesting 40 000 (thorough 200 000) deep under 18 suffixes, on the CLI in scan and list mode. unicode-sweep: the golden file of every (suffix, comment form) with one unusual character (NBSP, ideographic space, U+2028, NEL, é, emoji, combining mark, BOM, VT, CR, NUL) inserted at every byte position, or substituted for each blank, parsed + validated in-process. soup: 1..40 tokens drawn from 155 fragments (comment delimiters of every language, tag fragments, half-written tags, quotes, brackets, newlines/CR/CRLF, NBSP, zero-width, emoji, combining marks, BOM, here-doc/PHP/Markdown/XML openers, small valid statements), glued or space-separated, run in-process (parse + sync validators) under all 39 suffixes. mutants: delete/duplicate/insert-token/truncate/move-span mutations of valid files (golden file of every suffix x comment form, and the repository's own sources, tests, README, capped at 8 KiB) under their own suffix in-process. cli: a mutant committed and a further mutation in the work tree, real `git diff -U0..3` piped to `blockwatch` and `blockwatch list`, plus scan and list, under the file's suffix and a second random suffix. Every in-process panic is re-run on the CLI before it is reported. Evaluations count (input, suffix, mode) runs. Non-trivial input = unbalanced comment delimiters, a half-written tag, a Markdown definition opener or a degenerate `<!-->`.".into();
+    run.rule = "four enumerated and four random parts. many-paths: 3 000 tiny files each passed as its own path argument (an unquoted shell glob), and 6 000 reached through one glob (a directory walk over more entries than any plausible internal queue holds), validate and list, 30 s limit for a job of about a second. odd-numbers: every pair (and a sample of triples) of 18 unusual numerals (nan, inf, exponents, signs, -0, overflow, underscores, hex, Arabic-Indic digit, 2^53+1, blank) as the keys of a numeric keep-sorted block, with and without a pattern: any verdict, but no panic. line-edits: a block of 1..4 short lines over 21 characters (ASCII and multi-byte characters in groups sharing their UTF-8 lead bytes) changed by 1..4 character substitutions / insertions / deletions, in two thirds of the cases together with 1..2 such edits of the start-tag line (so that changed ranges begin or end anywhere around the tag), real `git diff -U0..3` piped to `blockwatch` and `blockwatch list` (non-trivial = the first differing character of a changed line is multi-byte on both sides). deep: 16 repetitive shapes (nested parentheses / brackets / braces / elements, block-quote prefixes, comment openers, comment lines, nested <block> tags, member and operator chains, quotes, nested lists, backticks, unfinished tags) repeated 300 and 1 000 (thorough 3 000) times under every suffix, and expression nesting 40 000 (thorough 200 000) deep under 18 suffixes, on the CLI in scan and list mode. unicode-sweep: the golden file of every (suffix, comment form) with one unusual character (NBSP, ideographic space, U+2028, NEL, é, emoji, combining mark, BOM, VT, CR, NUL) inserted at every byte position, or substituted for each blank, parsed + validated in-process. soup: 1..40 tokens drawn from 155 fragments (comment delimiters of every language, tag fragments, half-written tags, quotes, brackets, newlines/CR/CRLF, NBSP, zero-width, emoji, combining marks, BOM, here-doc/PHP/Markdown/XML openers, small valid statements), glued or space-separated, run in-process (parse + sync validators) under all 39 suffixes. mutants: delete/duplicate/insert-token/truncate/move-span mutations of valid files (golden file of every suffix x comment form, and the repository's own sources, tests, README, capped at 8 KiB) under their own suffix in-process. cli: a mutant committed and a further mutation in the work tree, real `git diff -U0..3` piped to `blockwatch` and `blockwatch list`, plus scan and list, under the file's suffix and a second random suffix. Every in-process panic is re-run on the CLI before it is reported. Evaluations count (input, suffix, mode) runs. Non-trivial input = unbalanced comment delimiters, a half-written tag, a Markdown definition opener or a degenerate `<!-->`.".into();
     run.assumptions = vec![
         "inputs are at most 16 KiB (edited lines are short: the character diff of one replaced line is quadratic, slowness on very long lines is not flagged)".into(),
         "only git-made diffs are piped in".into(),
@@ -794,7 +801,7 @@ pub fn run(run: &mut Run) {
     run.random("soup", run.tier.pick(2500, 40000), soup, check_soup);
     run.random("mutants", run.tier.pick(20000, 600000), mutant, check_mutant);
     run.shrink_iters = 100;
-    run.enumerate("many-paths", vec![ManyPaths { n: 3000, list: false }, ManyPaths { n: 3000, list: true }], Some("3 000 tiny files, each also passed as its own path argument, validate and list"), check_many_paths);
+    run.enumerate("many-paths", vec![ManyPaths { n: 3000, list: false, glob: false }, ManyPaths { n: 3000, list: true, glob: false }, ManyPaths { n: 6000, list: false, glob: true }, ManyPaths { n: 6000, list: true, glob: true }], Some("3 000 tiny files, each also passed as its own path argument, and 6 000 reached through one glob; validate and list"), check_many_paths);
     run.enumerate("odd-numbers", odd_key_items(), Some("every pair (and a sample of triples) of 18 unusual numerals as the keys of a numeric keep-sorted block"), check_odd_keys);
     run.random("cli", run.tier.pick(400, 10000), cli, check_cli);
     let edits = || {
